@@ -43,8 +43,8 @@ SIGMA = (['F1', 'F2', 'F3', 'F4', 'F5', 'Tab', 'l', 'i', 'h', 't', 'n', '-', '+'
           'Enter', 'x'] + list(MOUSE) + list(RESIZE) + TRAFFIC)
 QUITS = ['q', 'CtrlC']
 # reduced alphabet for depth 3 (one representative per handler branch)
-SIGMA3 = ['F1', 'F3', 'F4', 'Tab', 'n', '-', 'Up', 'Down', 'Enter', 'ClkAir', 'ClkOut', 'TsReset', 'DragC', 'DragFar',
-          'Rel', 'ScrUp', 'R1x1', 'R10x5', 'R80x24', 'New', 'Pos']
+SIGMA3 = ['F1', 'F3', 'F4', 'Tab', 'n', '-', 'Up', 'Down', 'Enter', 'ClkAir', 'ClkOut', 'DragC', 'DragFar',
+          'Rel', 'ScrUp', 'R1x1', 'R80x24', 'New', 'Pos']
 SUB_AIR = ['F3', 'Up', 'Down', 'Enter', 'Expire', 'New']
 
 TRACKED = ['empty', 'one_nopos', 'one_pos', 'three_mixed']
@@ -191,7 +191,7 @@ def compile_script(feed, tracked, opts, size, delivery, seq, quit_key='q'):
     flush()
     steps.append({'op': 'snap', 'name': 'final'})
     steps.append({'op': 'quit', 'hex': hexs(KEYS[quit_key]), 'letters': [quit_key]})
-    key = 'radar|%dx%d|ctx=%s|opts=%s|%s|%s|%s' % (size[0], size[1], tracked, opts, delivery, ','.join(seq) or '-',
+    key = 'radar|%dx%d|ctx=%s|opts=%s|%s|%s|%s' % (size[0], size[1], tracked, opts, delivery, ','.join(seq) or 'none',
                                                  quit_key)
     ctx_keep = feed.context(tracked)[1]
     return {'binary': 'radar', 'oracle': 'c17', 'key': key, 'argv': argv, 'size': list(size), 'filler': True,
@@ -372,11 +372,16 @@ def enumerate_scripts(tier, feed):
         bound['parts']['depth 4 F3.{Up,Down,Enter}^3 x one_pos x delivery(2)'] = len(out) - n0
     else:
         for tr in TRACKED:
-            for op in opts4:
-                for dl in ('batched', 'separated'):
-                    for seq in itertools.product(SIGMA, repeat=2):
-                        add(tr, op, big, dl, list(seq))
-        bound['parts']['depth 2 over Sigma @80x24 x tracked(4) x opts(4) x delivery(2)'] = len(out) - n0
+            for dl in ('batched', 'separated'):
+                for seq in itertools.product(SIGMA, repeat=2):
+                    add(tr, 'default', big, dl, list(seq))
+        bound['parts']['depth 2 over Sigma @80x24 x tracked(4) x opts{default} x delivery(2)'] = len(out) - n0
+        n0 = len(out)
+        for tr in ('empty', 'three_mixed'):
+            for op in ('touchscreen', 'disable_all', 'locations2'):
+                for seq in itertools.product(SIGMA, repeat=2):
+                    add(tr, op, big, 'batched', list(seq))
+        bound['parts']['depth 2 over Sigma @80x24 x {empty,three_mixed} x opts{touchscreen,disable_all,locations2} x batched'] = len(out) - n0
         n0 = len(out)
         for tr in ('empty', 'three_mixed'):
             for dl in ('batched', 'separated'):
@@ -385,11 +390,14 @@ def enumerate_scripts(tier, feed):
         bound['parts']['depth 3 over Sigma3(%d) @80x24 x {empty,three_mixed} x delivery(2)' % len(SIGMA3)] = len(out) - n0
         bound['sigma3'] = SIGMA3
         n0 = len(out)
-        for tr in ('empty', 'one_pos', 'three_mixed'):
-            for dl in ('batched', 'separated'):
+        for dl in ('batched', 'separated'):
+            for tr in ('empty', 'one_pos', 'three_mixed'):
+                for seq in itertools.product(SUB_AIR, repeat=3):
+                    add(tr, 'default', big, dl, list(seq))
+            for tr in ('empty', 'one_pos'):
                 for seq in itertools.product(SUB_AIR, repeat=4):
                     add(tr, 'default', big, dl, list(seq))
-        bound['parts']['depth 4 over {F3,Up,Down,Enter,Expire,New} @80x24 x {empty,one_pos,three_mixed} x delivery(2)'] = len(out) - n0
+        bound['parts']['depth 3 over {F3,Up,Down,Enter,Expire,New} x {empty,one_pos,three_mixed} + depth 4 x {empty,one_pos}, @80x24 x delivery(2)'] = len(out) - n0
 
     n0 = len(out)
     for name, argv, rej in CLI:
